@@ -293,6 +293,9 @@ class ExprMixin:
                 raise Unsupported(f"enum {ety.cls} has no member {attr}", node)
             if kind == "extmodule":
                 return SV(None, None, py=("extmodule", base.py[1], attr if base.py[2] is None else f"{base.py[2]}.{attr}"))
+            if kind == "excinst" and attr in ("value", "args", "msg", "message"):
+                # the text carried by a caught exception: only ever formatted into a reply, never interpreted
+                return self.ctx.fresh(TStr, "exc_" + attr)
             if kind == "class":
                 # class attribute constant, e.g. Mailbox.FOLDER_SIZE_PACK_LIMIT
                 cls = self.find_class(base.py[1])
